@@ -2102,3 +2102,61 @@ func (c *Ctx) ruleRegexPreludeComment(rule string) {
 		r.Ok(rule, "all configurations", fmt.Sprintf("%d configurations wait for the delimiter of a regular expression: '#' is accepted in each", n), "")
 	}
 }
+
+// ruleFinalNewline: a line break at the very end of a file changes nothing (C08: trailing blanks and blank lines are
+// insignificant; files without a final line break are common). Decided on E1: the end of the input right away and
+// after one more LF must have the same verdict in every explored configuration in which a LF is accepted.
+func (c *Ctx) ruleFinalNewline(rule string) {
+	r := c.R
+	r.Rule(rule, "in every explored configuration of the scanner automaton in which LF is accepted, the end of the input has the same verdict (consumed without an error / an error) as LF followed by the end of the input: a document is not accepted without its final line break and refused with it, or the other way round", 1)
+	a := c.Analysis(stackK, false)
+	if a == nil {
+		r.Undecided(rule, "E1", "no exploration", "")
+		return
+	}
+	divs, n := a.FinalNewlineDivergences()
+	if n < 50 {
+		r.Undecided(rule, "sites", fmt.Sprintf("only %d configurations compared", n), "")
+		return
+	}
+	seen := map[string]bool{}
+	nBad := 0
+	for _, d := range divs {
+		// only definite verdicts: where the abstraction leaves a predicate open ("accept or error") nothing is claimed
+		if !((d.Direct == "accept" && d.AfterLF == "error") || (d.Direct == "error" && d.AfterLF == "accept")) {
+			continue
+		}
+		// what the pending state is decides the verdict: the key names the state and the state that waits below it
+		top := d.Stack
+		if i := strings.LastIndexByte(top, ','); i >= 0 {
+			top = top[i+1:]
+		}
+		k := c.canonState(d.State) + " over " + c.canonState(top) + ": " + d.Direct + " / after LF " + d.AfterLF
+		if seen[k] {
+			continue
+		}
+		seen[k] = true
+		nBad++
+		r.Bad(rule, k, fmt.Sprintf("the end of the file in this configuration gives '%s', one more line break before it gives '%s' (stack %s; reached by %s): a document is judged differently with and without its final line break", d.Direct, d.AfterLF, d.Stack, d.Trace), "")
+	}
+	if nBad == 0 {
+		r.Ok(rule, "all configurations", fmt.Sprintf("%d configurations compared: the final line break changes no verdict", n), "")
+	}
+}
+
+// canonState: the name a step function had on the pinned tree (a renamed state keeps its keys).
+func (c *Ctx) canonState(st string) string {
+	if st == "" {
+		return "(empty stack)"
+	}
+	if pk := c.P.Pkg("scanner"); pk != nil {
+		if fn, ok := pk.Types.Scope().Lookup(st).(*types.Func); ok {
+			n := prog.FuncName(fn)
+			if i := strings.LastIndexByte(n, '.'); i >= 0 {
+				return n[i+1:]
+			}
+			return n
+		}
+	}
+	return st
+}
